@@ -97,6 +97,8 @@ def main():
             mm = re.search(r"why: (.*)", r.stdout) or re.search(r"ERROR: (\w+Sanitizer: [\w-]+)", r.stdout) or re.search(r"runtime error: (.*)", r.stdout)
             if mm:
                 why = mm.group(1)[:160]
+            if "did not reproduce" in r.stdout:
+                why = "[UNREPRODUCIBLE CANDIDATE: replay encoding or state leak?] " + why
             row = {"id": m["id"], "property": m["property"], "suite": st, "caught": bool(viol) and r.returncode == 1, "build_error": builderr, "seconds": round(dt, 1), "first_reason": why,
                    "what": m.get("what", m.get("find", m.get("revert", m.get("patch", "")))[:80])}
         except Exception as e:
